@@ -14,7 +14,7 @@ import (
 // non-exempt sender and 0 for an exempt one, for every amount < 2^256 and
 // every stored rate num/den (fraction notation), reached through SetBridgeTax.
 func VerifC15_TaxAmount() {
-	env := newVEnv(100)
+	env := NewVEnv(100)
 	num := sym.Uint64Range("num", 0, 65535)
 	den := sym.Uint64Range("den", 1, 65535)
 	rate := fmt.Sprintf("%d/%d", num, den)
@@ -25,7 +25,7 @@ func VerifC15_TaxAmount() {
 	} else {
 		tax.ExemptAddresses = []sdk.AccAddress{vUserB}
 	}
-	err := env.k.SetBridgeTax(env.ctx, tax)
+	err := env.K.SetBridgeTax(env.Ctx, tax)
 	sym.Assert(err == nil, "set-tax-accepts-nonnegative-fraction")
 
 	amount := sym.BigInt("amount", 256)
@@ -37,7 +37,7 @@ func VerifC15_TaxAmount() {
 		sym.Reach("tax-product-overflow")
 		return
 	}
-	got, err := env.k.bridgeTaxAmount(env.ctx, vUserA, sdk.Coin{Denom: vDenom, Amount: sdkmath.NewIntFromBigInt(amount)})
+	got, err := env.K.bridgeTaxAmount(env.Ctx, vUserA, sdk.Coin{Denom: vDenom, Amount: sdkmath.NewIntFromBigInt(amount)})
 	sym.Assert(err == nil, "tax-no-error")
 	if exempt {
 		sym.Reach("tax-exempt")
